@@ -15,8 +15,9 @@ import json
 
 import common
 from common import Check, standard_proof_step, TRUSTED_COMMON
-from c10 import IMPORTS, coq_codes, corr_term, harness_problems, job_defs, job_replay_info, make_jobs, run_jobs
+from c10 import IMPORTS as IMPORTS0, coq_codes, corr_term, harness_problems, job_defs, job_replay_info, make_jobs, run_jobs
 
+IMPORTS = IMPORTS0 + "\nFrom XV Require Import Proofs.ParserDoc."
 EXTRAS_C15 = ["required", "wildtail", "anytype", "noinitwild", "fixed", "textattr", "union"]
 DOCUMENTED = ("ParserError", "ConverterError", "XmlContextError", "XmlHandlerError")
 
@@ -31,7 +32,7 @@ SITE_CLASS = {
 
 def run(ck: Check):
     ck.level = "proof"
-    obligations, discharged, axioms = standard_proof_step(ck, extra_targets=["Model/ParserCorr.vo", "Proofs/ParserWitness.vo"])
+    obligations, discharged, axioms = standard_proof_step(ck, extra_targets=["Model/ParserCorr.vo", "Proofs/ParserWitness.vo", "Proofs/ParserDoc.vo"])
     q = ck.quick
     budget = {"truncations": 30 if q else 400, "flips": 24 if q else 150, "structural": 26 if q else 120, "prefix": 3 if q else 8,
               "random": 8 if q else 30, "event_faults": 12 if q else 60, "json_truncations": 12 if q else 60,
@@ -66,9 +67,18 @@ def run(ck: Check):
                 continue
             terms.append(corr_term(j, c))
             meta.append((j, c))
-    codes = coq_codes("c15_bind", defs, "corr_case", "c15_code", terms)
+    codes = coq_codes("c15_bind", defs, "corr_case", "c15_code_guarded", terms, imports=IMPORTS)
     undocumented = {}
+    guards_true = 0
+    not_wf = set()
     for (j, c), code in zip(meta, codes):
+        guards_true += bool(code & 4)
+        if code & 8:
+            not_wf.add(j["id"])
+        if code & 4 and code & 2:
+            ck.failure("guarded-theorem-contradicted", f"all guards of C15_outcome_documented hold and the implementation answered {c['obs']} "
+                                                       f"({c['tag']}, {c['replay'].get('what')})",
+                       {"job": job_replay_info(j), "case": c["replay"], "observed": c["obs"][:300]})
         rp = {"job": job_replay_info(j), "case": c["replay"], "observed": c["obs"][:300]}
         key = (j["id"], c["replay"].get("doc_b64"), c.get("handler"))
         if code & 1:
@@ -137,6 +147,10 @@ def run(ck: Check):
                 cls = ("json-misfit-" if d["wf"] else "json-illformed-") + o["exc"]
                 ck.failure(cls, f"JsonParser raised {o['exc']} at {d.get('where')}: {o['msg']} ({d['what']})", rp)
 
+    for jid in sorted(not_wf):
+        j = res["jobs"][jid]
+        ck.failure("exported-metadata-not-wf", f"wf_universe (hypothesis of C15_outcome_documented) is false of the metadata the real XmlContext "
+                                               f"built for {j['model']} seed {j['seed']}", {"job": job_replay_info(j)})
     ck.cov["evaluations"] = len(terms) + 2 * stats["docs"] + jstats["docs"]
     ck.cov["distinct_nontrivial"] = len({(j["id"], c["replay"].get("what"), c.get("handler")) for j, c in meta}) + stats["docs"] + jstats["docs"]
     ck.cov["rule"] = ("distinct = faulted documents (each run through both XML handlers / the JSON parser) + distinct binding-layer streams "
@@ -144,6 +158,8 @@ def run(ck: Check):
     ck.cov["input_distribution"] = {"jobs": len(jobs), "jobs_skipped": skipped, "binding_cases": len(terms), "unsupported_cases": unsupported,
                                     "xml_documents": stats, "json_documents": jstats,
                                     "undocumented_binding_outcomes_by_class": undocumented,
+                                    "cases_satisfying_all_guards_of_C15_outcome_documented": guards_true,
+                                    "jobs_whose_exported_metadata_fails_wf_universe": len(not_wf),
                                     "outcomes": {" / ".join(map(str, k)): v for k, v in sorted(outcome_hist.items(), key=str)}}
     ck.cov["samples"] = [{"model": j["model"], "seed": j["seed"], "what": c["replay"].get("what"), "tag": c["tag"], "observed": c["obs"][:120]}
                          for (j, c) in meta[:6]]
